@@ -291,9 +291,15 @@ class DirectSolver(LinearSolver):
         """
         return False
 
-    def _build_mtx(self):
+    def _build_mtx(self, unscaled=False):
         """
         Assemble a Jacobian matrix by matrix-vector-product with columns of identity.
+
+        Parameters
+        ----------
+        unscaled : bool
+            If True, seeds are given and products are read in the unscaled (physical) state, so
+            that the transpose of the matrix can be used in reverse mode.
 
         Returns
         -------
@@ -317,6 +323,14 @@ class DirectSolver(LinearSolver):
         with system._relevance.active(False):
             # Assemble the Jacobian by running the identity matrix through apply_linear
             for i, seed in enumerate(identity_column_iter(seed)):
+                if unscaled:
+                    with system._unscaled_context(outputs=[xvec], residuals=[bvec]):
+                        xvec.set_val(seed)
+                    system._apply_linear('fwd', scope_out, scope_in)
+                    with system._unscaled_context(outputs=[xvec], residuals=[bvec]):
+                        mtx[:, i] = bvec.asarray()
+                    continue
+
                 # set value of x vector to provided value
                 xvec.set_val(seed)
 
@@ -377,7 +391,7 @@ class DirectSolver(LinearSolver):
                 raise RuntimeError("DirectSolvers without an assembled jacobian are not supported "
                                    "when running under MPI if comm.size > 1.")
 
-            mtx = self._build_mtx()
+            mtx = self._build_mtx(unscaled=True)
 
             # During LU decomposition, detect singularities and warn user.
             with warnings.catch_warnings():
@@ -523,9 +537,11 @@ class DirectSolver(LinearSolver):
 
                 x_vec[:] = sol_array
 
-        # matrix-vector-product generated jacobians are scaled.
+        # matrix-vector-product generated jacobians are built unscaled as well, because the
+        # transpose of a scaled matrix is not the reverse mode operator when scaling is active.
         else:
-            x_vec[:] = sol_array = scipy.linalg.lu_solve(self._lup, b_vec, trans=trans_lu)
+            with system._unscaled_context(outputs=[d_outputs], residuals=[d_residuals]):
+                x_vec[:] = sol_array = scipy.linalg.lu_solve(self._lup, b_vec, trans=trans_lu)
 
         if not system.under_complex_step and self._lin_rhs_checker is not None and mode == 'rev':
             self._lin_rhs_checker.add_solution(b_vec, sol_array, system, copy=True)
